@@ -80,7 +80,7 @@ def call_ext(it, ref, args, kwargs, node):
 def _b_len(it, args, kwargs, node):
     from . import ops
     (v,) = args
-    v = ops.strval(v)
+    v = ops.tupval(it, ops.strval(v))
     if isinstance(v, (str, list, tuple, dict, frozenset, set, AStr)):
         return len(v)
     if isinstance(v, CharSet):
@@ -613,7 +613,7 @@ def _s_join(it, recv, args, kwargs, node):
         raise _CE("join of a bag")
     items = ops.iterate(it, src, node)
     for x in items:
-        if not ops.is_strlike(x) and not isinstance(x, (Sym, Unknown)):
+        if not ops.is_strlike(x) and not isinstance(ops.strval(x), (Sym, Unknown)):
             it.may_raise("TypeError", node, f"sequence item: expected str instance, {type(x).__name__} found", certain=True)
     if not items:
         return ""
@@ -843,6 +843,20 @@ def _pred(pyname, digits_true, nd, ot):
         v = _sv(recv)
         if isinstance(v, str):
             return getattr(v, pyname)()
+        if pyname == "isascii" and isinstance(recv, Obj) and isinstance(v, AStr) and recv.strval is v:
+            # mixed case: fork, and on the true side narrow the object's text to its ASCII concretisations
+            kinds = [(any(c in (ND, OT) for c in (p.chars if isinstance(p, CharSet) else p)), all(c in (ND, OT) for c in (p.chars if isinstance(p, CharSet) else p))) for p in v.pos]
+            if any(only for _, only in kinds):
+                return False
+            if not any(some for some, _ in kinds):
+                return True
+            if it.choose(2, "isascii") == 0:
+                log = getattr(it, "undo_log", None)
+                if log is not None:
+                    log.append((recv, "\0strval", v))
+                recv.strval = AStr.make([p if not isinstance(p, CharSet) else CharSet([c for c in p.chars if c not in (ND, OT)]) for p in v.pos])
+                return True
+            return False
         def one(c):
             if c == ND:
                 return nd
@@ -1150,17 +1164,102 @@ def _rx(p, flags=0):
 
 def _do_match(it, mode, rx, s, node):
     from . import ops
+    orig = s
     s = ops.strval(s)
     if isinstance(s, (SStr, Sym)):
         return Sym("rematch", mode, rx, s)
     if isinstance(s, str):
         m = getattr(_re.compile(rx.pattern, rx.flags), mode)(s)
         return ops.MatchVal(m) if m else None
+    if isinstance(s, AStr):
+        r = _abstract_match(it, mode, rx, s, orig, node)
+        if r is not NotImplemented:
+            return r
     if isinstance(s, (AStr, ABag, CharSet, VSet)):
         return Sym("rematch_abs", mode, rx, s)
     if isinstance(s, Unknown):
         return Unknown("match")
     it.may_raise("TypeError", node, "expected string", certain=True)
+
+
+_amatch_cache = {}
+
+
+def _abstract_match(it, mode, rx, s, orig, node):
+    """Pattern.match / fullmatch / search on a positional abstract string: decided exactly as a regular-language question.  All
+    concretisations match -> a match; none -> None; otherwise the path forks and, on the matching side, the text of the object the
+    string belongs to is narrowed to the concretisations that can match (per-position projection of the intersection of text language and pattern language)."""
+    from . import ops, relang
+    if mode not in ("match", "fullmatch"):
+        return NotImplemented
+    key = (rx.pattern, rx.flags, mode, s)
+    hit = _amatch_cache.get(key)
+    if hit is None:
+        try:
+            rg = relang.Regex(rx.pattern, rx.flags)
+            raws = list(rg.raws) + [relang.RAW_ASCII_DIGIT, relang.RAW_ASCII_UPPER, relang.RAW_ASCII_LOWER, relang.RAW_DIGIT_UNI, relang.RAW_SPACE_UNI]
+            for p_ in s.pos:
+                for c in (p_.chars if isinstance(p_, CharSet) else p_):
+                    if c not in (ND, OT):
+                        raws.append(relang.raw_lit(c))
+            A = relang.Alphabet(raws)
+            L = rg.language(A, mode)
+        except relang.NeedRefine:
+            return NotImplemented
+        except AnalysisError:
+            return NotImplemented
+        ascii_alnum = A.atoms_of(relang.RAW_ASCII_DIGIT) | A.atoms_of(relang.RAW_ASCII_UPPER) | A.atoms_of(relang.RAW_ASCII_LOWER)
+        nd_atoms = frozenset(A.atoms_of(relang.RAW_DIGIT_UNI)) - frozenset(A.atoms_of(relang.RAW_ASCII_DIGIT))
+        ot_atoms = frozenset(A.all_atoms) - frozenset(ascii_alnum) - frozenset(A.atoms_of(relang.RAW_DIGIT_UNI))
+
+        def atoms_of_pos(p_):
+            out = set()
+            for c in (p_.chars if isinstance(p_, CharSet) else p_):
+                if c == ND:
+                    out |= nd_atoms
+                elif c == OT:
+                    out |= ot_atoms
+                else:
+                    out.add(A.atom_of_char(c))
+            return frozenset(out)
+
+        classes = [atoms_of_pos(p_) for p_ in s.pos]
+        P = relang.DFA.positional(A, classes)
+        inter = P.intersect(L)
+        if inter.is_empty():
+            hit = ("none", None)
+        elif P.included_in(L):
+            hit = ("all", None)
+        else:
+            proj = inter.projections(len(s.pos))
+            new = []
+            for p_, pr in zip(s.pos, proj):
+                keep = set()
+                for c in (p_.chars if isinstance(p_, CharSet) else p_):
+                    if c == ND:
+                        if nd_atoms & pr:
+                            keep.add(ND)
+                    elif c == OT:
+                        if ot_atoms & pr:
+                            keep.add(OT)
+                    elif A.atom_of_char(c) in pr:
+                        keep.add(c)
+                new.append(CharSet(keep))
+            hit = ("some", AStr.make(new))
+        _amatch_cache[key] = hit
+    kind, refined = hit
+    if kind == "none":
+        return None
+    if kind == "all":
+        return ops.MatchVal(None)
+    if it.choose(2, "abstract regex match") == 0:
+        if isinstance(orig, Obj) and orig.strval is s:
+            log = getattr(it, "undo_log", None)
+            if log is not None:
+                log.append((orig, "\0strval", s))
+            orig.strval = refined
+        return ops.MatchVal(None)
+    return None
 
 
 def _mk_module_match(mode):
@@ -1508,7 +1607,8 @@ def _rstr_xeger(it, recv, args, kwargs, node):
         rx = RegexVal(rx, 0)
     if not isinstance(rx, RegexVal):
         raise _CE("xeger of an abstract pattern")
-    shape = regex_shape(rx.pattern, rx.flags)
+    # rstr expands \d / \w / \s from its ASCII alphabets (string.digits, ...): exactly the re.ASCII reading of the pattern
+    shape = regex_shape(rx.pattern, rx.flags | _re.ASCII)
     if isinstance(shape, list):
         return shape[it.choose(len(shape), "xeger length")]
     return shape
